@@ -9,8 +9,8 @@ CHECK = {
         "reset_ops": ["db.new"],
         "rule": "real bbolt file per script, usermanager.APIRouterOf through httptest + UserManager methods + userPanel.GetUser (shim): "
                 "(1) every subset of the six fields x 3 variants (single create / create+reopen / create+random update) then GET, list, "
-                "authenticate, authorise, upload, activate on the record; (2) the three Lean witness requests; (3) 500 (thorough 6000) random "
-                "sequences of 4..12 (..24) ops over 3 UIDs + a 1-byte and a 20-byte UID: create/update with random subsets and values "
+                "authenticate, authorise, upload, activate on the record; (2) the three Lean witness requests; (3) 1200 (thorough 20000) random "
+                "sequences of 4..12 (..30) ops over 3 UIDs + a 1-byte and a 20-byte UID: create/update with random subsets and values "
                 "{0,+-1,int32/int64 min/max, 2^32, random}, UID mismatch (other/absent/empty UID), undecodable bodies (truncated, bad base64, "
                 "int32 overflow, wrong type, non-object), bad/empty URL UID, GET, list, DELETE, authenticate, authorise (n around 2^31/2^32), "
                 "upload (extreme usages), activate, close/reopen; then every probe on every record. "
